@@ -10,6 +10,15 @@ _warm = Taxon(key='warm', name='warm')      # mapper initialisation outside trac
 _warm2 = AnnotatedGenome(genome=Genome(key='warm', description='w'), taxon=_warm)
 
 
+try:
+    from crosshair.tracers import NoTracing
+    with NoTracing():
+        pass
+except Exception:      # plain interpreter without crosshair: a no-op context
+    import contextlib
+    NoTracing = contextlib.nullcontext
+
+
 def fork_int(x, lo, hi):
     """Returns a concrete int equal to x (one path per value)."""
     for v in range(lo, hi + 1):
